@@ -96,8 +96,12 @@ def _graph_once(job):
     import os
     from dclab.rtdc_dataset.fmt_http import RTDC_HTTP
     case, root, port = job
-    d = root / ("g%d_%d" % (os.getpid(), _graph_once.k))
+    # (the same few directory names are used over and over: what a location
+    # holds is replaced between graphs, as happens to files on disk during
+    # the life of a process)
+    d = root / ("g%d_%d" % (os.getpid(), _graph_once.k % 3))
     _graph_once.k += 1
+    shutil.rmtree(d, ignore_errors=True)
     d.mkdir()
     out = []
     offered = None
